@@ -64,6 +64,37 @@ func isLocalNewD(v ssa.Value, d int) bool {
 	return false
 }
 
+// sharedFieldRoot: the field (of an object not created in this function)
+// through which the written location is reached, or nil.
+func sharedFieldRoot(v ssa.Value, d int) *ssa.FieldAddr {
+	if d > 8 {
+		return nil
+	}
+	switch x := v.(type) {
+	case *ssa.FieldAddr:
+		if inner := sharedFieldRoot(x.X, d+1); inner != nil {
+			return inner
+		}
+		if isLocalNew(x.X) {
+			return nil
+		}
+		// a field of a plain local struct variable is not shared
+		if al, ok := x.X.(*ssa.Alloc); ok && !al.Heap {
+			return nil
+		}
+		return x
+	case *ssa.IndexAddr:
+		return sharedFieldRoot(x.X, d+1)
+	case *ssa.UnOp:
+		return sharedFieldRoot(x.X, d+1)
+	case *ssa.Lookup:
+		return sharedFieldRoot(x.X, d+1)
+	case *ssa.Slice:
+		return sharedFieldRoot(x.X, d+1)
+	}
+	return nil
+}
+
 func (e *Engine) allPackageFuncs() []*ssa.Function {
 	var out []*ssa.Function
 	for _, fn := range e.funcs {
@@ -213,6 +244,53 @@ func (e *Engine) PackageScans() *UnitResult {
 			}
 		}
 		add("lockset.closedworld", []string{"C03"}, len(bad) == 0, "every function that touches lock-guarded state or a mutex is under contract (lockset discipline is checked on all of them)", bad)
+	}
+	// every write to shared memory targets a classified field: a field that is
+	// written after construction (outside init-writers, on an object not
+	// created in the same function) must be lock-guarded, atomic or declared
+	// setter-only (configuration setters are excluded by the statement of C03)
+	if len(e.spec.Guarded) > 0 || len(e.spec.Immutable) > 0 {
+		guarded := map[string]bool{}
+		for _, g := range e.spec.Guarded {
+			guarded[g.Struct+"."+g.Field] = true
+		}
+		var bad []string
+		seenBad := map[string]bool{}
+		for _, fn := range funcs {
+			if e.spec.InitWriters[relName(fn)] {
+				continue
+			}
+			for _, b := range fn.Blocks {
+				for _, in := range b.Instrs {
+					var target ssa.Value
+					switch x := in.(type) {
+					case *ssa.Store:
+						target = x.Addr
+					case *ssa.MapUpdate:
+						target = x.Map
+					default:
+						continue
+					}
+					fa := sharedFieldRoot(target, 0)
+					if fa == nil {
+						continue
+					}
+					sn, f := fieldOf(fa)
+					fq := sn + "." + f
+					if guarded[fq] || e.spec.Atomic[fq] != nil || e.spec.SetterOnly[fq] {
+						continue
+					}
+					if e.spec.Immutable[fq] {
+						continue // reported by the immutable scan
+					}
+					if !seenBad[fq] {
+						seenBad[fq] = true
+						bad = append(bad, fq+" written at "+e.pos(in)+" in "+relName(fn))
+					}
+				}
+			}
+		}
+		add("writes.classified", []string{"C03"}, len(bad) == 0, "every field written after construction is lock-guarded, atomic or a declared configuration setter field", bad)
 	}
 	// options: every literal of type func(*EventBus) created by a With* function
 	// must be under contract (closed world for the Option callback contract)
